@@ -35,6 +35,33 @@ def build_c02b(ctx):
     return bins["h_dd"], drv
 
 
+C02Z_VOS = ddcommon.MODEL_VOS + ["DD/Build.vo", "DD/Apply.vo", "DD/ZbddBool.vo"]
+
+
+def build_c02z(ctx):
+    """third driver (ZBDD cases only; also used by checks/C04.py for the ZBDD restrict sweep):
+    ocaml/c02z_main.ml linked against the extraction of coq/Extract/ExC02z.v (DD/Table.v + DD/ZbddOps.v +
+    DD/ZbddBool.v); same harness (h_dd)."""
+    pid = ctx.pid
+    ctx.pid = "C02z"
+    try:
+        drv = vf.ocaml_build(ctx, "ExC02z.v", "c02z_main.ml", extra_ml=["dd_types.ml"], model_vos=C02Z_VOS)
+    finally:
+        ctx.pid = pid
+    bins = vf.cargo_build(["h_dd"])
+    return bins["h_dd"], drv
+
+
+class _c02z_driver:
+    """ddcommon.run_dd / replay_dd with the ZBDD model driver"""
+    def __enter__(self):
+        self.orig = ddcommon.build_dd
+        ddcommon.build_dd = build_c02z
+
+    def __exit__(self, *a):
+        ddcommon.build_dd = self.orig
+
+
 class _c02b_driver:
     """ddcommon.run_dd / replay_dd with the BCDD model driver"""
     def __enter__(self):
@@ -76,17 +103,27 @@ def run(ctx):
     with _c02b_driver():
         ok_b, bad_b = ddcommon.run_dd(ctx, ["C02"], bcdd, rule="", allowed_axioms=ALLOWED_AXIOMS, drv_args=["--c02b"],
                                       write_ev=False, debug_cases=None, sig_extra="bcdd-model")
+    # pass 1z (ZBDD model replay): the ZBDD cases through the extracted model of coq/DD/ZbddBool.v
+    zbdd = [c for c in cases if " kind=zbdd " in c[0] + " "]
+    with _c02z_driver():
+        ok_z, bad_z = ddcommon.run_dd(ctx, ["C02"], zbdd, rule="", allowed_axioms=ALLOWED_AXIOMS, drv_args=["--c02z"],
+                                      proofs=False, write_ev=False, debug_cases=None, sig_extra="zbdd-model")
     ddcommon.run_dd(
         ctx, ["C02"], cases, proofs=False,
-        extra_cov={"bcdd_model_cases_ok": ok_b, "bcdd_model_cases_bad": len(bad_b)},
-        rule="per kind (bdd, bcdd, zbdd): all 65536 ordered pairs of the 256 three-variable functions for each of the 8 binary operators, not/eval/node_count/cofactors of all 256, sampled ite triples, constants and (negated) variables, under one seed-chosen order (quick) or all 6 (thorough); sampled pairs with 2 and 8 worker threads; random histories over 4..7 variables; the bcdd cases are additionally replayed operation by operation on the extracted BCDD apply model (correspondence_stats c02b_*). non-trivial = case with >= 3 ops; distinct = distinct (header, op list)",
+        extra_cov={"bcdd_model_cases_ok": ok_b, "bcdd_model_cases_bad": len(bad_b),
+                   "zbdd_model_cases_ok": ok_z, "zbdd_model_cases_bad": len(bad_z)},
+        rule="per kind (bdd, bcdd, zbdd): all 65536 ordered pairs of the 256 three-variable functions for each of the 8 binary operators, not/eval/node_count/cofactors of all 256, sampled ite triples, constants and (negated) variables, under one seed-chosen order (quick) or all 6 (thorough); sampled pairs with 2 and 8 worker threads; random histories over 4..7 variables; the bcdd cases are additionally replayed operation by operation on the extracted BCDD apply model (correspondence_stats c02b_*), the zbdd cases on the extracted ZBDD model (c02z_*). non-trivial = case with >= 3 ops; distinct = distinct (header, op list)",
         allowed_axioms=ALLOWED_AXIOMS)
 
 
 def replay(ctx, path):
     import json
-    if "--c02b" in json.load(open(path)).get("drv_args", []):
+    args = json.load(open(path)).get("drv_args", [])
+    if "--c02b" in args:
         with _c02b_driver():
+            ddcommon.replay_dd(ctx, path)
+    elif "--c02z" in args:
+        with _c02z_driver():
             ddcommon.replay_dd(ctx, path)
     else:
         ddcommon.replay_dd(ctx, path)
